@@ -182,11 +182,13 @@ pub struct ParamSpec {
     pub q: Vec<u64>,
     pub t: u64,
     pub expand_chain: bool,
+    /// EncryptionParameters::use_special_prime_for_encryption (data level = key level)
+    pub special_enc: bool,
 }
 
 impl ParamSpec {
     pub fn to_json(&self) -> Value {
-        json!({"scheme": scheme_name(self.scheme), "n": self.n, "q": self.q, "t": self.t, "expand_chain": self.expand_chain})
+        json!({"scheme": scheme_name(self.scheme), "n": self.n, "q": self.q, "t": self.t, "expand_chain": self.expand_chain, "use_special_prime_for_encryption": self.special_enc})
     }
     pub fn from_json(v: &Value) -> Option<Self> {
         let scheme = match v["scheme"].as_str()? {
@@ -201,6 +203,7 @@ impl ParamSpec {
             q: v["q"].as_array()?.iter().map(|x| x.as_u64()).collect::<Option<Vec<_>>>()?,
             t: v["t"].as_u64()?,
             expand_chain: v["expand_chain"].as_bool().unwrap_or(true),
+            special_enc: v["use_special_prime_for_encryption"].as_bool().unwrap_or(false),
         })
     }
     pub fn qbits(&self) -> Vec<usize> {
@@ -212,11 +215,12 @@ impl ParamSpec {
     /// Class string for distinct counting: scheme, N, byte widths per residue, #primes.
     pub fn class(&self) -> String {
         let widths: Vec<String> = self.qbits().iter().map(|b| ((b + 7) / 8).to_string()).collect();
-        format!("{}/N{}/w{}", scheme_name(self.scheme), self.n, widths.join("."))
+        format!("{}/N{}/w{}{}", scheme_name(self.scheme), self.n, widths.join("."), if self.special_enc { "/special-enc" } else { "" })
     }
     pub fn parms(&self) -> EncryptionParameters {
         let q: Vec<Modulus> = self.q.iter().map(|&v| Modulus::new(v)).collect();
         let p = EncryptionParameters::new(scheme_of(self.scheme)).set_poly_modulus_degree(self.n).set_coeff_modulus(&q);
+        let p = if self.special_enc { p.set_use_special_prime_for_encryption(true) } else { p };
         if self.scheme == CKKS {
             p
         } else {
@@ -298,7 +302,8 @@ pub fn draw_spec(rng: &mut Prng, o: &SpecOpts) -> Option<ParamSpec> {
         }
         t?
     };
-    Some(ParamSpec { scheme, n, q, t, expand_chain: true })
+    let special_enc = q.len() >= 2 && rng.chance(1, 6);
+    Some(ParamSpec { scheme, n, q, t, expand_chain: true, special_enc })
 }
 
 /// One party's view: context plus the usual tools.
